@@ -8,8 +8,8 @@ one() {
     case $pid in
         C01|C02|C03|C05|C06|C07)
             also=$(echo "C01 C02 C03 C05 C06 C07" | tr ' ' '\n' | grep -v $pid | tr '\n' ',' | sed 's/,$//')
-            tools/ingest_refactor.py refactors/$name $name --also=$also ;;
-        *) tools/ingest_refactor.py refactors/$name $name ;;
+            tools/ingest_refactor.py $PWD/refactors/$name $name --also=$also ;;
+        *) tools/ingest_refactor.py $PWD/refactors/$name $name ;;
     esac
 }
 for n in $(ls refactors); do one $n 2>&1 | grep -v "^WARNING"; done
